@@ -9,18 +9,22 @@ def op(o):
     k=o["k"]
     if k=="put": return "put(%s,#%d/%d%s)"%(q(o.get("key")),o.get("tag",0),o.get("len",0),",nil" if o.get("nil") else "")
     if k in("del","get"): return "%s(%s)"%(k,q(o.get("key")))
-    if k in("txn","batch"): return "%s{%s}%s"%(k," ".join(op(x) for x in o.get("sub",[])), (" commit" if o.get("commit") else " rollback") if k=="txn" else "")
+    if k in("txn","batch"):
+        fl="".join("+"+f for f in("scribble","abandon") if o.get(f))+("+failio%d"%o["fail_io"] if o.get("fail_io") else "")
+        return "%s{%s}%s%s"%(k," ".join(op(x) for x in o.get("sub",[])), (" commit" if o.get("commit") else " rollback") if k=="txn" else "",fl)
     if k=="sleep": return "sleep(%d)"%o.get("d",0)
     if k in("crange","scan"): return "%s(%s,%s)"%(k,q(o.get("key")),q(o.get("end")))
     return k
+def show(c,ind=" "):
+    for k,v in c.items():
+        if k=="sched": continue
+        if k=="ops": print(ind+"ops:","; ".join(op(o) for o in v))
+        elif isinstance(v,dict) and ("ops" in v or "sched" in v): print(ind+k+":"); show(v,ind+"  ")
+        else: print(ind+"%s: %s"%(k,json.dumps(v)[:1500]))
 for p in sys.argv[1:]:
     r=json.load(open(p))
-    c=r["case"]
     print("==",p)
     print(" sig:",r["violation"]["signature"])
-    print(" detail:",r["violation"]["detail"][:600])
-    print(" knobs:",c.get("knobs"))
-    if "ops" in c: print(" ops:","; ".join(op(o) for o in c["ops"]))
-    for k in c:
-        if k not in("knobs","ops","sched"): print(" %s: %s"%(k,json.dumps(c[k])[:1500]))
+    print(" detail:",r["violation"]["detail"][:900])
+    show(r["case"])
     print(" min:",r.get("minimised"))
